@@ -341,7 +341,8 @@ def check(tier, seed):
     if err or err2 or err3:
         e = err or err2 or err3
         ck.obligation("correspondence run", False, e[:1500])
-        ck.violation({"kind": "harness", "log": e, "broken": "C09 harness"}, "harness failed: " + e[:300], no_input=True)
+        if not (err and V.crash_violation(ck, err, os.path.join(V.WORK, "c09_main.out"), hs, lambda h: run_impl([h], "crash")[0], "shard ownership harness (real shard managers over an in-memory memberlist network)")):
+            ck.violation({"kind": "harness", "log": e, "broken": "C09 harness"}, "harness failed: " + e[:300], no_input=True)
         return ck.finish()
     diffs, mon = [], []
     for i, h in enumerate(hs):
